@@ -191,7 +191,7 @@ fn main() {
                 let trace = generate::generate(rng::run_seed(seed, prop, i), prop);
                 let s = sim::Sim::run(&trace, false);
                 stats.merge(&s.stats);
-                if let Some(e) = &s.harness_error {
+                if let Some(e) = s.harness_error.as_ref().or(s.decode_errors.first()) {
                     herr += 1;
                     if herr < 4 {
                         println!("HARNESS ERROR at {i}: {e}");
